@@ -256,6 +256,9 @@ class Var:
                             # TaintedStrings will be quoted by default, don't
                             # double quote.
                             pass
+                        elif fmt == 'html-quote':
+                            val = html_quote(val, name, md,
+                                             encoding=self.encoding)
                         else:
                             val = special_formats[fmt](val, name, md)
                     elif fmt == '':
@@ -285,6 +288,9 @@ class Var:
                         # TaintedStrings will be quoted by default, don't
                         # double quote.
                         pass
+                    elif fmt == 'html-quote':
+                        val = html_quote(val, name, md,
+                                         encoding=self.encoding)
                     else:
                         val = special_formats[fmt](val, name, md)
                 elif fmt == '':
@@ -315,7 +321,11 @@ class Var:
             if f.__name__ == 'html_quote' and isinstance(val, TaintedString):
                 # TaintedStrings will be quoted by default, don't double quote.
                 continue
-            val = f(val)
+            if f is html_quote:
+                # bytes are decoded with the encoding of the template
+                val = f(val, encoding=self.encoding)
+            else:
+                val = f(val)
 
         if 'size' in args:
             size = args['size']
